@@ -5,6 +5,7 @@ CONSTANTS
   MaxDefs = 6
   MaxGets = 6
   InjLen = 3
+  Wide = {}
   Emit = TRUE
 INVARIANTS InjectConsistent StackEmptyWhenQuiet Precedence NoRecursion OnceBuilt LazyFactories
 CHECK_DEADLOCK FALSE
